@@ -52,10 +52,17 @@ invocation (1) every file of every earlier invocation of the session must still 
 invocation finished (a finished run's outputs are a function of its inputs, not of what the process does next), and
 (2) the files of the invocation itself, its exit status and (without --output) its STDOUT must be those of the same
 command in a fresh interpreter writing into an empty directory.
+
+Sequence names are input bytes like any other (check_names): a FASTA header is cut at ASCII white space only, so a record
+name may begin with, contain or end in a character that Unicode (but not ASCII) counts as white space - U+00A0, U+2003,
+U+3000, U+0085, ... - or one of the separators 0x1C-0x1F.  Such an input assembly, supplied as FASTA with the index cache
+cold, warm (in process and in a fresh interpreter) and in its "fresh" state, and supplied as AGP / TPF, must give the same
+files / the same output assemblies row for row as the run that indexed the FASTA itself.
 """
 
 import gc
 import itertools
+import locale
 import os
 import pathlib
 import random
@@ -816,6 +823,65 @@ def check_case(case, col, quick, rng, full_cache=True):
                                 col.fail(f"case {case['name']}: output assemblies from {in_fmt} input differ from those from FASTA input: {d}", inp)
 
 
+# ------------------------------------------------------------------ sequence names with white-space-like characters
+
+UTF8_IO = locale.getpreferredencoding(False).lower().replace("-", "").replace("_", "") == "utf8"
+# characters str.isspace() accepts that a FASTA header (bytes, cut at ASCII white space) keeps as part of the name
+SPACE_LIKE = "\u00a0\u2003\u3000\x1c\x1f\u0085\u2028\u1680\x1d\x1e\u2009\u205f\u2029\u202f"
+
+
+def case_names(chars):
+    """case_simple under other sequence names: chars[0] in front of the first, chars[1] inside the second, chars[2] behind the third, chars[3] in front of the fourth"""
+    ren = {"scaffold_1": chars[0] + "ctg1", "scaffold_2": "ctg" + chars[1] + "2", "scaffold_3": "ctg3" + chars[2], "scaffold_4": chars[3] + "ctg4"}
+    case = g.case_simple()
+    for sc in case["scaffolds"]:
+        sc["name"] = ren[sc["name"]]
+    for rows in case["pretext"]:
+        for r in rows:
+            r[0] = ren.get(r[0], r[0])
+    where = ("first", "inside", "last", "first")
+    case["name"] = "simple with sequence names " + ", ".join(ascii(n) for n in ren.values()) + " (" + ", ".join(f"U+{ord(c):04X} {w}" for c, w in zip(chars, where)) + ")"
+    return case
+
+
+def name_cases(quick):
+    chars = SPACE_LIKE if UTF8_IO else "\x1c\x1f\x1d\x1e"  # non-ASCII names only where the tool's text files are UTF-8
+    n = 2 if quick else len(chars)
+    return [case_names([chars[(i + 3 * j) % len(chars)] for j in range(4)]) for i in range(n)]
+
+
+def check_names(cases, col, quick):
+    for i, case in enumerate(cases):
+        if col.full:
+            return
+        with tempfile.TemporaryDirectory() as root:
+            work = Work(case, root)
+            ref_cfg = {"via": "inprocess", "cwd": "root", "cache": "cold"}
+            ref, err = work.run(ref_cfg)
+            col.case((case["name"], "ref"))
+            if ref is None:
+                # names the tool refuses: then it has to refuse them whatever the state of the cache
+                cfg = {"via": "inprocess", "cwd": "root", "cache": "warm"}
+                snap, _ = work.run(cfg)
+                if snap is not None:
+                    col.fail(f"case {case['name']}: fails with the index cache cold ({err[-200:]}) but succeeds with the cache warm", {"kind": "pair", "case": case, "ref": ref_cfg, "run": cfg})
+                continue
+            runs = [{"via": "inprocess", "cwd": "root", "cache": "warm"}, {"via": "inprocess", "cwd": "elsewhere", "cache": {"fai": "fresh", "agp": "fresh"}}]
+            if i == 0 or not quick:
+                runs.append({"via": "subprocess", "hashseed": 1, "cwd": "elsewhere", "cache": "warm"})
+            for cfg in runs:
+                compare(work, ref_cfg, ref, cfg, col)
+            r_cfg = {"via": "inprocess", "in_fmt": "fa", "out_fmt": "agp", "cache": "cold"}
+            r, err = work.run(r_cfg)
+            col.case((case["name"], "ref-agp"))
+            if r is None:
+                col.fail(f"case {case['name']}: FASTA input with AGP output failed where FASTA output succeeded: {err}", {"kind": "pair", "case": case, "ref": ref_cfg, "run": r_cfg})
+                continue
+            for in_fmt in ("agp", "tpf"):
+                if in_fmt in work.inputs:
+                    compare(work, r_cfg, r, {"via": "inprocess", "in_fmt": in_fmt, "out_fmt": "agp"}, col, rows_only=True)
+
+
 def other_fixed(case):
     """name of a FIXED case with other inputs than `case`"""
     return "multi" if case["name"] != "multi" else "cut"
@@ -1362,6 +1428,7 @@ def run(tier, seed, **opts):
         "order the tool refuses with a chromosome naming error" + ("" if quick else "; 12 seeded random ones; the general cases") + ") run at --log-level DEBUG"
         + (" / default" if quick else " / default / WARNING, agp and FASTA input,") + " under " + ("2-3" if quick else "6") + " hash seeds and in process: exit "
         "status and all files, the log of a refused run included, identical; "
+        "the simple case under sequence names that begin with / contain / end in non-ASCII white space or 0x1C-0x1F: cache cold vs warm / fresh, FASTA vs AGP / TPF input; "
         "non-trivial = distinct (case, run configuration) compared with the reference run"
     )
     cases = [g.case_cut(), g.case_haps(), g.case_multi()]
@@ -1373,6 +1440,9 @@ def run(tier, seed, **opts):
         if col.full:
             break
         check_case(case, col, quick, rng, full_cache=not quick or i < 1)
+    named = name_cases(quick)
+    if not col.full:
+        check_names(named, col, quick)
     if not col.full:
         check_orders(cases[:3], col, quick)
     for case in cases[:2] if quick else cases[:6]:
@@ -1425,6 +1495,7 @@ def run(tier, seed, **opts):
         f"{n_levels} runs of {len(tag_cases)} multi-tag maps" + ("" if quick else f" and {len(cases)} general cases") + " at --log-level DEBUG / default"
         + ("" if quick else " / WARNING") + " under different hash seeds; "
         + ("2 + 2 (first case: 4)" if quick else "13") + " runs per case with the input paths spelled relative / with a detour; "
+        f"{len(named)} cases with white-space-like characters in the sequence names x (cold vs 2-3 warm runs, FASTA vs AGP / TPF input); "
         f"{len(ties)} tie maps x (1 reference + {n_pre} pre-used fresh interpreters + {reps} in-process runs in shuffled rounds with churn / gc modes)",
         exhaustive=False,
     )
